@@ -4,6 +4,7 @@
 cd /verif
 PROPS="C01 C02 C04 C05 C07 C08 C09 C10 C11 C12 C17 C18 C19 C20"
 for f in "$@"; do
+  f=$(readlink -f "$f")
   git -C /repo diff --quiet || { echo "repo dirty"; exit 9; }
   git -C /repo apply "$f" || { echo "$f DOES-NOT-APPLY"; continue; }
   tmp=$(mktemp -d /root/benign.XXXX)
